@@ -4,8 +4,12 @@
 package main
 
 import (
+	"io"
+	"log/slog"
+
 	"encoding/json"
 	"fmt"
+	"github.com/whoisnian/glb/logger"
 	"math/rand"
 	"net/http"
 	"net/url"
@@ -43,8 +47,12 @@ type Case struct {
 	Conc int `json:"conc,omitempty"`
 	// Incremental: the request list is served after EVERY registration (judged by the model of the
 	// routes registered so far): routes are added to a Mux that has already served requests.
-	Incremental bool  `json:"incremental,omitempty"`
-	Reqs        []Req `json:"reqs,omitempty"`
+	Incremental bool `json:"incremental,omitempty"`
+	// Relay > 0: the Mux gets the logger package's Relay as its relay handler (what an application
+	// does to have its requests logged), with a logger whose threshold is INFO (1), ERROR (2: the
+	// request records are suppressed) or FATAL (3); dispatch is the same through it.
+	Relay int   `json:"relay,omitempty"`
+	Reqs  []Req `json:"reqs,omitempty"`
 }
 
 type handlerPanic struct{}
@@ -161,6 +169,10 @@ func runCase(cs Case, st *stats) (key, expected, observed string) {
 		}
 	}
 	mux.HandleNoRoute(observe(-1))
+	if cs.Relay > 0 {
+		lv := []slog.Level{logger.LevelInfo, logger.LevelInfo, logger.LevelError, logger.LevelFatal}[cs.Relay%4]
+		mux.HandleRelay(logger.New(logger.NewNanoHandler(io.Discard, logger.NewOptions(lv, false, false))).Relay)
+	}
 	serveAll := func() (key, expected, observed string) {
 		reqs := cs.Reqs
 		if cs.Std {
@@ -674,6 +686,9 @@ func randCase(r *rand.Rand) Case {
 		cs.PanicEvery = 2 + r.Intn(6)
 	}
 	cs.Incremental = r.Intn(3) == 0
+	if r.Intn(4) == 0 {
+		cs.Relay = 1 + r.Intn(3)
+	}
 	for i := 0; i < nreq; i++ {
 		var p string
 		if r.Intn(4) != 0 && len(cs.Routes) > 0 { // (every random pattern of a case may have been unregistrable)
